@@ -72,6 +72,12 @@ def cases(draw, tier="quick"):
     P["half"] = draw(st.integers(0, 7)) == 0
     P["kills"] = draw(st.sampled_from([0, 0, 0, 1, 2]))
     P["w_kill"] = draw(st.sampled_from([1, 4]))
+    if draw(st.integers(0, 3)) == 0:
+        # the last connect() of a side is issued only after the connection was lost and replaced (with earlier
+        # subchannels possibly still open)
+        P["hold_last_open"] = draw(st.sampled_from([[1, 0], [0, 1], [1, 1]]))
+        P["kills"] = max(1, P["kills"])
+        P["w_kill"] = 4
     # openers that write (and maybe close) synchronously inside connectionMade()
     P["eager"] = draw(st.sampled_from([None, None, None, "write", "close"]))
     P["max_reconnects"] = 8
@@ -162,6 +168,11 @@ def check(case, P, final):
                     if rcv.closed_locally is None and snd.closed_locally is None and got != snd.writes:
                         return ("order", "subchannel %r#%d %s: %d of %d writes delivered" % (
                             name, k, d, len(got), len(snd.writes)), "writes-missing")
+    if final:
+        for o in case.opens:
+            if o[2] is None and o[3] is not None:
+                return ("once", "connect() for %r by side %d failed: %r - the subchannel never appears on the peer" % (
+                    o[1], o[0], o[3].value), "connect-failed:%s" % type(o[3].value).__name__)
     # subchannel ids
     ms = case.managers()
     lead = case.leader_index()
